@@ -117,6 +117,12 @@
  *   reinit                       ares_reinit, then waits for the helper thread  (REINIT)
  *   setservers <csv|->           ares_set_servers_ports_csv  (SETSERVERS rc=)
  *   setsortlist <a/m,b/m>        ares_set_sortlist
+ *   setserversl <a,b,..|->       legacy ares_set_servers            (SETSERVERSL rc=)
+ *   setserversp <a/udp/tcp,..|-> legacy ares_set_servers_ports      (SETSERVERSP rc=)
+ *   setserverscsv <csv>          ares_set_servers_csv               (SETSERVERSCSV rc=)
+ *   getservers                   legacy ares_get_servers, ares_get_servers_ports
+ *                                (GETSERVERS rc= list=[..], GETSERVERSP rc= list=[a/udp/tcp,..])
+ *   dup                          ares_dup, the copy is destroyed at once   (DUP rc=)
  *   setlocalip4 <a> | setlocalip6 <a> | setlocaldev <name>
  *   flushwrites                  ares_process_pending_write (FLUSHWRITES begin .. end)
   writefile <path> <hex|->     (re)write a file (see writefile= above), e.g. before reinit   (WRITEFILE)
